@@ -1,5 +1,6 @@
 import Jp.Lemmas.Valid
 import Jp.Props.C03
+import Jp.Lemmas.C11Helpers
 /-
   C11 — PointerBuf under any mutation sequence behaves like a deque of decoded tokens.
   Abstraction: `abs s = tokens s` (the encoded tokens; decoding is injective on valid tokens, C03).
@@ -8,170 +9,30 @@ import Jp.Props.C03
 namespace Jp.C11
 open Jp Jp.Spec
 
-/-- arguments a caller can supply through the safe API: valid tokens / valid pointers -/
-def OpOK : BufOp → Prop
-  | .pushFront t => validTok t = true
-  | .pushBack t => validTok t = true
-  | .append o => validPtr o = true
-  | .replace _ t => validTok t = true
-  | _ => True
+-- def OpOK … : see Jp/Lemmas/C11Helpers.lean
+-- arguments a caller can supply through the safe API: valid tokens / valid pointers
+--   def OpOK : BufOp → Prop
+--     | .pushFront t => validTok t = true
+--     | .pushBack t => validTok t = true
+--     | .append o => validPtr o = true
+--     | .replace _ t => validTok t = true
+--     | _ => True
 
-def runBuf (s : Bytes) : List BufOp → Bytes × List BufRet
-  | [] => (s, [])
-  | op :: ops =>
-    let (s', r) := bufStep s op
-    let (s'', rs) := runBuf s' ops
-    (s'', r :: rs)
+-- def runBuf … : see Jp/Lemmas/C11Helpers.lean
+--   def runBuf (s : Bytes) : List BufOp → Bytes × List BufRet
+--     | [] => (s, [])
+--     | op :: ops =>
+--       let (s', r) := bufStep s op
+--       let (s'', rs) := runBuf s' ops
+--       (s'', r :: rs)
 
-def runDeque (ts : List Bytes) : List BufOp → List Bytes × List BufRet
-  | [] => (ts, [])
-  | op :: ops =>
-    let (ts', r) := dequeStep ts op
-    let (ts'', rs) := runDeque ts' ops
-    (ts'', r :: rs)
-
-/-! ### helpers -/
-
-theorem dequeStep_valid (ts : List Bytes) (op : BufOp) (hv : ∀ t ∈ ts, validTok t = true)
-    (hop : OpOK op) : ∀ t ∈ (dequeStep ts op).1, validTok t = true := by
-  cases op with
-  | pushFront t =>
-    intro u hu
-    simp only [dequeStep, List.mem_cons] at hu
-    rcases hu with rfl | hu
-    · exact hop
-    · exact hv u hu
-  | pushBack t =>
-    intro u hu
-    simp only [dequeStep, List.mem_append, List.mem_singleton] at hu
-    rcases hu with hu | rfl
-    · exact hv u hu
-    · exact hop
-  | popFront =>
-    intro u hu
-    exact hv u (List.mem_of_mem_tail hu)
-  | popBack =>
-    intro u hu
-    exact hv u (List.dropLast_subset ts hu)
-  | append o =>
-    intro u hu
-    simp only [dequeStep, List.mem_append] at hu
-    rcases hu with hu | hu
-    · exact hv u hu
-    · exact tokens_valid hop u hu
-  | replace i t =>
-    intro u hu
-    simp only [dequeStep] at hu
-    split at hu
-    · rcases List.mem_or_eq_of_mem_set hu with h | rfl
-      · exact hv u h
-      · exact hop
-    · exact hv u hu
-  | clear =>
-    intro u hu
-    simp [dequeStep] at hu
-
-theorem popFront_ofToks (ts : List Bytes) (hns : ∀ t ∈ ts, noSlash t) :
-    popFront (ofToks ts) = (ofToks ts.tail, ts.head?) := by
-  cases ts with
-  | nil => simp [ofToks, popFront]
-  | cons t ts =>
-    have ht : noSlash t := hns t (by simp)
-    cases ts with
-    | nil =>
-      simp [ofToks, popFront, find_noSlash t ht]
-    | cons u us =>
-      rw [ofToks_cons, ofToks_cons]
-      simp only [popFront, find_append_slash t _ ht, List.tail_cons, List.head?_cons]
-      rw [ofToks_cons]
-      simp
-
-theorem popBack_ofToks (ts : List Bytes) (hns : ∀ t ∈ ts, noSlash t) :
-    popBack (ofToks ts) = (ofToks ts.dropLast, ts.getLast?) := by
-  rcases List.eq_nil_or_concat ts with rfl | ⟨a, t, rfl⟩
-  · simp [ofToks, popBack, rfind]
-  · rw [List.concat_eq_append] at hns ⊢
-    have ht : noSlash t := hns t (by simp)
-    rw [ofToks_snoc]
-    simp only [popBack, rfind_append_slash _ _ ht]
-    have h1 : List.take ((ofToks a).length + 1) (ofToks a ++ 47 :: t) = ofToks a ++ [47] := by
-      simp [List.take_append]
-      exact List.take_of_length_le (by omega)
-    have h2 : List.drop ((ofToks a).length + 1) (ofToks a ++ 47 :: t) = t := by
-      simp [List.drop_append]
-    rw [h1, h2]
-    simp
-
-theorem append_ofToks (ts : List Bytes) (o : Bytes) (ho : validPtr o = true) :
-    Jp.append (ofToks ts) o = ofToks (ts ++ tokens o) := by
-  rw [ofToks_append, ofToks_tokens o (validPtr_shape ho)]
-  cases ts with
-  | nil => simp [ofToks, Jp.append, isRoot]
-  | cons t ts =>
-    cases o with
-    | nil => simp [ofToks_cons, Jp.append, isRoot]
-    | cons b r => simp [ofToks_cons, Jp.append, isRoot]
-
-theorem replace_ofToks (ts : List Bytes) (hns : ∀ t ∈ ts, noSlash t) (i : Nat) (t : Bytes) :
-    Jp.replace (ofToks ts) i t =
-      if i < ts.length then (ofToks (ts.set i t), .ok ts[i]?) else (ofToks ts, .err ⟨i, ts.length⟩) := by
-  cases ts with
-  | nil => simp [ofToks, Jp.replace, isRoot, count, tokens, splitOn]
-  | cons u us =>
-    have htok := tokens_ofToks (u :: us) hns
-    have hroot : isRoot (ofToks (u :: us)) = false := by simp [ofToks_cons, isRoot]
-    simp only [Jp.replace, hroot, htok, fromTokens_eq_ofToks]
-    by_cases h : i < (u :: us).length
-    · have h' : ¬ (i ≥ (u :: us).length) := by omega
-      simp only [h, h', if_true, if_false]
-      simp
-    · have h' : i ≥ (u :: us).length := by omega
-      simp only [h, h', if_true, if_false]
-      simp
-
-/-- every mutator acts on the text of a token list exactly as the deque operation does -/
-theorem bufStep_ofToks (ts : List Bytes) (hns : ∀ t ∈ ts, noSlash t) (op : BufOp) (hop : OpOK op) :
-    bufStep (ofToks ts) op = (ofToks (dequeStep ts op).1, (dequeStep ts op).2) := by
-  cases op with
-  | pushFront t => simp [bufStep, dequeStep, pushFront, ofToks_cons]
-  | pushBack t => simp [bufStep, dequeStep, pushBack, ofToks_snoc]
-  | popFront => simp [bufStep, dequeStep, popFront_ofToks ts hns]
-  | popBack => simp [bufStep, dequeStep, popBack_ofToks ts hns]
-  | append o => simp [bufStep, dequeStep, append_ofToks ts o hop]
-  | replace i t =>
-    simp only [bufStep, dequeStep, replace_ofToks ts hns i t]
-    split <;> simp
-  | clear => simp [bufStep, dequeStep, clear, ofToks]
-
-theorem noSlash_of_valid {ts : List Bytes} (hv : ∀ t ∈ ts, validTok t = true) :
-    ∀ t ∈ ts, noSlash t := fun t ht => validTok_noSlash (hv t ht)
-
-/-- the whole history on the text of a valid token list -/
-theorem run_ofToks (ts : List Bytes) (ops : List BufOp) (hv : ∀ t ∈ ts, validTok t = true)
-    (hops : ∀ op ∈ ops, OpOK op) :
-    runBuf (ofToks ts) ops = (ofToks (runDeque ts ops).1, (runDeque ts ops).2) ∧
-    ∀ t ∈ (runDeque ts ops).1, validTok t = true := by
-  induction ops generalizing ts with
-  | nil => exact ⟨by simp [runBuf, runDeque], hv⟩
-  | cons op ops ih =>
-    have hop : OpOK op := hops op (by simp)
-    have hops' : ∀ o ∈ ops, OpOK o := fun o ho => hops o (by simp [ho])
-    have hstep := bufStep_ofToks ts (noSlash_of_valid hv) op hop
-    have hv' := dequeStep_valid ts op hv hop
-    obtain ⟨ih1, ih2⟩ := ih (dequeStep ts op).1 hv' hops'
-    refine ⟨?_, ?_⟩
-    · simp only [runBuf, runDeque, hstep, ih1]
-    · simpa only [runDeque] using ih2
-
-theorem recode_valid (ts : List Bytes) (hv : ∀ t ∈ ts, validTok t = true) :
-    ((ts.map fun t => (Token.decoded t).bytes).map fun d => (Token.new d).bytes) = ts := by
-  induction ts with
-  | nil => rfl
-  | cons t ts ih =>
-    have ht : validTok t = true := hv t (by simp)
-    have hts : ∀ u ∈ ts, validTok u = true := fun u hu => hv u (by simp [hu])
-    simp only [List.map_cons, ih hts]
-    rw [Jp.C03.new_encoded, Jp.C03.decoded_eq_dec t ht, Jp.C03.enc_dec t ht]
+-- def runDeque … : see Jp/Lemmas/C11Helpers.lean
+--   def runDeque (ts : List Bytes) : List BufOp → List Bytes × List BufRet
+--     | [] => (ts, [])
+--     | op :: ops =>
+--       let (ts', r) := dequeStep ts op
+--       let (ts'', rs) := runDeque ts' ops
+--       (ts'', r :: rs)
 
 -- OBLIGATIONS
 -- step_refines history_refines history_text replace_out_of_range append_root_left append_root_right
